@@ -50,6 +50,42 @@ def run(world, sut, op):
                 world.violate('C04.raise_first', 'raising form does not return True for a valid element', repr(ret), step)
             world.probe('c04_raise_valid')
         return [n1, canon_exc(exc) if exc else None]
+    if variant == 'force_parse':
+        # parse_message(text, force_validation=True, report_file=...) must behave like parsing and then
+        # calling the raising form: raise the first reported error of the parsed message, or return it
+        from hl7apy.parser import parse_message
+        if e.classname != 'Message' or sut.meta[ri].get('profile'):
+            return n1
+        text = e.to_er7()
+        lvl = e.validation_level
+        try:
+            ref_msg = parse_message(text, validation_level=lvl, find_groups=op.get('find_groups', True))
+        except Exception as ex:       # noqa
+            return [n1, 'reparse ' + canon_exc(ex)]
+        ref = ref_msg.validate(return_errors=True)
+        fs.reset()
+        fobj = fs.file_object()
+        try:
+            got = parse_message(text, validation_level=lvl, find_groups=op.get('find_groups', True), force_validation=True,
+                                report_file=fobj)
+            exc = None
+        except Exception as ex:       # noqa
+            got, exc = None, ex
+        expected_rep = ''.join('Error: %s\n' % x for x in ref.errors) + ''.join('Warning: %s\n' % x for x in ref.warnings)
+        if ref.errors:
+            if exc is None or canon_text(str(exc)) != canon_text(str(ref.errors[0])):
+                world.violate('C04.raise_first', 'parse_message(force_validation=True) does not raise the first reported error',
+                              '%s vs %s' % (canon_exc(exc) if exc else None, canon_exc(ref.errors[0])), step)
+        elif exc is not None:
+            world.violate('C04.raise_first', 'parse_message(force_validation=True) raises although no error is reported',
+                          canon_exc(exc), step)
+        elif got.to_er7() != ref_msg.to_er7():
+            world.violate('C04.deterministic', 'parse_message(force_validation=True) returns another message', '', step)
+        if fobj.content() != expected_rep:
+            world.violate('C04.report', 'report file does not list exactly the reported errors and warnings (force_validation)',
+                          'file=%r expected=%r' % (fobj.content()[:300], expected_rep[:300]), step)
+        world.probe('c04_force_validation_parse')
+        return [n1, canon_exc(exc) if exc else None]
     # report variants
     expected = ''.join('Error: %s\n' % x for x in r1.errors) + ''.join('Warning: %s\n' % x for x in r1.warnings)
     fault = op.get('fault')
